@@ -1,3 +1,4 @@
+import numbers
 from math import log2
 from math import ceil
 import highspy
@@ -257,8 +258,8 @@ class SolverWrapper:
         
         # Normalize bounds to per-index arrays when necessary
         def _materialize_bounds(param, default_value, param_name):
-            # scalar
-            if isinstance(param, (int, float)):
+            # scalar (any real number type, e.g. also numpy scalars: they must not fall through to the default below)
+            if isinstance(param, numbers.Real):
                 return [float(param)] * len(indexes)
             # dict mapping index -> value
             if isinstance(param, dict):
